@@ -205,6 +205,7 @@ func floor(s *slip.Scope, f slip.Object, args slip.List, depth int) slip.Values 
 				r = (*slip.Ratio)(&zr)
 			}
 		}
+		q = bigToInteger((*big.Int)(q.(*slip.Bignum)))
 	case slip.Complex:
 		slip.TypePanic(s, depth, "number", tn, "real")
 	}
